@@ -49,7 +49,6 @@ func init() {
 	})
 }
 
-
 // refWriteParams computes, for every production function, which of its
 // parameters flow into the value argument of ref.Store.Set / SetWithLog (directly or
 // through callees): "calling f with x at position i writes x into a ref".
